@@ -226,6 +226,22 @@ def _comparator_is_map_key(prog, body, call_term, key_ty):
     if cid is None or cid not in prog.bodies:
         return False
     cb = prog.bodies[cid]
+    if "fn" in call_term and Callee(call_term["fn"]).path.split("::")[-1].endswith("by_key"):
+        # sorted_by_key(|(k, _)| *k): the sort key is the map's key itself (a copy / clone / reference of item.0)
+        rty = cb.locals[0]["ty"].lstrip("&").replace("'_ ", "").strip()
+        if rty != key_ty:
+            return False
+        rets = [s_ for b_, i_, s_ in cb.all_stmts() if "lhs" in s_ and s_["lhs"][0] == 0 and not s_["lhs"][1]]
+        calls0 = [t_ for b_, t_ in cb.calls() if t_.get("dest") and t_["dest"][0] == 0 and not t_["dest"][1]]
+        ok = bool(rets or calls0)
+        for s_ in rets:
+            src = s_["rv"].get("op") if s_["rv"]["k"] == "use" else None
+            if src is None or not (".0" in (op_place(src) or (0, ()))[1] or _from_field0(cb, src)):
+                ok = False
+        for t_ in calls0:
+            if "fn" not in t_ or Callee(t_["fn"]).decl_path != "std::clone::Clone::clone" or not (".0" in (op_place(t_["args"][0]) or (0, ()))[1] or _from_field0(cb, t_["args"][0])):
+                ok = False
+        return ok
     cmps = cb.call_sites(lambda c: c.decl_path == "std::cmp::Ord::cmp")
     if len(cmps) != 1:
         return False
@@ -386,6 +402,10 @@ def deny_list(prog, chk):
             hits += 1
             ok = False
             why = ""
+            owners = prog.owners_of(body.path)
+            if owners == {CTX + "::set_config"} and "{closure" not in body.path and _only_handed_to_then(prog, body, prog.body(CTX + "::set_config"), ".use_local_styles"):
+                ok = True
+                why = "only in a function that set_config hands to `config.use_local_styles.then(..)` (the permitted exception)"
             if body.path == CTX + "::set_config":
                 # must be control dependent on config.use_local_styles == true
                 gate = _bool_field_gate(body, ".use_local_styles")
@@ -417,6 +437,44 @@ def _bool_field_gate(body, field):
     return None
 
 
+def _then_gate(body, field):
+    """`<flag>.then(f)` / `.then_some(v)` calls of `body` whose flag is a read of `field`: [(bb, terminator)].
+    The closure / function handed to then() runs only when the flag is true, and the result is None otherwise."""
+    out = []
+    for (bb, t, c) in body.call_sites(lambda c: c.path in ("core::bool::<impl bool>::then", "std::bool::<impl bool>::then", "core::bool::<impl bool>::then_some", "std::bool::<impl bool>::then_some") or (c.path.endswith("<impl bool>::then") or c.path.endswith("<impl bool>::then_some"))):
+        if not t["args"]:
+            continue
+        ch = body.chase(t["args"][0])
+        if ch[0] == "place" and ch[1][1] and str(ch[1][1][-1]) == field:
+            out.append((bb, t))
+    return out
+
+
+def _only_handed_to_then(prog, fn_body, owner, field):
+    """every mention of `fn_body` in `owner` is as the function argument of `<field>.then(..)`"""
+    gates = _then_gate(owner, field)
+    if not gates:
+        return False
+    mentions = 0
+    for b in range(owner.n):
+        t = owner.blocks[b]["t"]
+        for i, a in enumerate(t.get("args", [])):
+            k = op_const(a)
+            if k is not None and "fn" in k and Callee(k["fn"]).path == fn_body.path:
+                mentions += 1
+                if not any(b == gb and i == 1 for (gb, gt) in gates):
+                    return False
+        if t.get("k") == "call" and "fn" in t and Callee(t["fn"]).path == fn_body.path:
+            return False  # called directly: decided where it is called (after splicing), not here
+        for st in owner.blocks[b]["s"]:
+            rv = st.get("rv") or {}
+            for o in [rv.get("op"), rv.get("a"), rv.get("b")] + list(rv.get("ops", [])):
+                k = op_const(o) if isinstance(o, dict) else None
+                if k is not None and "fn" in k and Callee(k["fn"]).path == fn_body.path:
+                    return False
+    return mentions > 0
+
+
 def local_style_invariant(prog, chk):
     """local_style_id is Some only while config.use_local_styles holds: both are written only by
     set_config, and the false edge always resets the id."""
@@ -441,6 +499,14 @@ def local_style_invariant(prog, chk):
                     resets.append((b, i))
         esc = R.escapes(sc, (sb, R.TERM), resets, closed_edges=[(sb, true_t)])
         ok = bool(resets) and not esc
+    if not ok:
+        # `self.local_style_id = config.use_local_styles.then(..)`: None whenever the flag is false, written on every path
+        for (gb, gt) in _then_gate(sc, ".use_local_styles"):
+            for (b, i, s) in R.field_assigns(sc, (".local_style_id",)):
+                src = s["rv"].get("op") if s["rv"]["k"] == "use" else None
+                ch = sc.chase(src) if src is not None else ("?",)
+                if ch[0] == "call" and ch[1] == gb and all(sc.dominates(b, r) for r in sc.return_blocks):
+                    ok = True
     chk.ob(
         ok,
         "A13.local-style-reset",
